@@ -41,8 +41,8 @@ impl FeatureIter {
             #vis fn #ident_iter_fn() -> #ident_iter_struct {
                 use ::core::option::Option::Some;
                 #ident_iter_struct {
-                    fwd: Some(#ident_enum::#ident_min),
-                    bwd: Some(#ident_enum::#ident_max),
+                    fwd: Some(Self::#ident_min),
+                    bwd: Some(Self::#ident_max),
                     len: #num_values,
                 }
             }
